@@ -1,6 +1,6 @@
 (* cdf / pmf / check_split_points over exact rationals. *)
 From Coq Require Import QArith Qabs Lia Lqa Qfield.
-From DS Require Import Base.Prelude Model.TDigest Spec.TDigestSpec Proofs.TDigestProofsBase Proofs.TDigestProofsRank.
+From DS Require Import Base.Prelude Model.TDigest Spec.TDigestSpec Proofs.TDigestProofsBase Proofs.TDigestProofsRank Proofs.TDigestProofsQuantile.
 Open Scope Q_scope.
 
 Lemma cdf_empty_splits v : v_cs v <> [] -> cdf v [] = Ok (Some [1]).
@@ -8,6 +8,9 @@ Proof. intros H. unfold cdf. cbn. destruct (v_cs v); [congruence|reflexivity]. Q
 
 Lemma pmf_empty_splits v : v_cs v <> [] -> pmf v [] = Ok (Some [1]).
 Proof. intros H. unfold pmf. rewrite cdf_empty_splits by auto. reflexivity. Qed.
+
+Lemma cdf_pmf_empty_splits v : v_cs v <> [] -> cdf v [] = Ok (Some [1]) /\ pmf v [] = Ok (Some [1]).
+Proof. intros H. split; [apply cdf_empty_splits|apply pmf_empty_splits]; exact H. Qed.
 
 (* a split list that is not strictly increasing is rejected (the crate panics) *)
 Lemma cdf_rejects_unsorted v sp : strictly_increasing sp = false -> cdf v sp = Stuck /\ pmf v sp = Stuck.
@@ -86,6 +89,20 @@ Proof.
       rewrite EL. ring.
 Qed.
 
+End Cdf.
+
+Lemma queries_never_stuck v : wf_view v ->
+  (forall x, exists r, rank v x = Ok (Some r)) /\
+  (forall q, exists x, quantile v q = Ok (Some x)) /\
+  (forall sp, strictly_increasing sp = true -> exists c p, cdf v sp = Ok (Some c) /\ pmf v sp = Ok (Some p)).
+Proof.
+  intros W. split; [apply rank_total; exact W|]. split; [apply quantile_total; exact W|].
+  intros sp H. destruct (cdf_ok v W sp H) as (l & E & _). destruct (pmf_sums_to_one v W sp H) as (p & Ep & _). eauto.
+Qed.
+
+Section CdfMono.
+Variable v : view.
+Hypothesis Hwf : wf_view v.
 Hypothesis Htight : unit_ends_tight v.
 
 Lemma F2_nondecr : forall sp l, strictly_increasing sp = true ->
@@ -102,18 +119,18 @@ Qed.
 (* with unit_ends_tight: cdf is non-decreasing and every pmf entry is non-negative *)
 Theorem cdf_nondecr sp c : strictly_increasing sp = true -> cdf v sp = Ok (Some c) -> nondecr c.
 Proof.
-  intros H Hc. destruct (cdf_ok sp H) as (l & E & F). rewrite E in Hc. inversion Hc; subst c.
+  intros H Hc. destruct (cdf_ok v Hwf sp H) as (l & E & F). rewrite E in Hc. inversion Hc; subst c.
   apply (F2_nondecr sp); auto.
 Qed.
 
 Theorem pmf_nonneg sp l : strictly_increasing sp = true -> pmf v sp = Ok (Some l) -> Forall (fun d => 0 <= d) l.
 Proof.
-  intros H Hp. destruct (cdf_ok sp H) as (c & E & F). unfold pmf in Hp. rewrite E in Hp. cbn [obind] in Hp.
-  pose proof (F2_nondecr sp c H F) as Hnd. pose proof (F2_range sp c F) as Hr.
+  intros H Hp. destruct (cdf_ok v Hwf sp H) as (c & E & F). unfold pmf in Hp. rewrite E in Hp. cbn [obind] in Hp.
+  pose proof (F2_nondecr sp c H F) as Hnd. pose proof (F2_range v Hwf sp c F) as Hr.
   destruct (c ++ [1]) as [|x r] eqn:Ec; inversion Hp; subst l; [constructor|].
   constructor.
   - destruct c as [|c0 c']; cbn [app] in Ec; inversion Ec; subst; [lra|]. inversion Hr; subst. tauto.
   - apply diffs_nonneg. exact Hnd.
 Qed.
 
-End Cdf.
+End CdfMono.
